@@ -314,19 +314,24 @@ func init() {
 		}
 		lb := []core.Opts{{Optimizers: "none"}}
 		lbAll := []core.Opts{{Optimizers: "none"}, {Optimizers: "none", LookbackMs: 60000}, {Optimizers: "none", QLookbackMs: 45000}, {LookbackMs: 20000}}
+		// core counts: a single core (one shard everywhere), an odd count, many
+		cores := []core.Opts{{Optimizers: "none", Procs: 1}, {Optimizers: "none", Procs: 3}, {Optimizers: "none", Procs: 16}}
 		var plans []plan
 		if c.Thorough() {
 			plans = []plan{
 				{f.List, []string{"D1", "D2", "D3", "D4"}, windowsThorough(), lbAll},
+				{f.List, []string{"D1", "D2"}, windowsAll(), cores},
 				{k.List, []string{"D1", "D2", "D3", "D4"}, windowsAll(), lb},
 			}
 		} else {
 			plans = []plan{
 				{f.List, []string{"D1", "D2", "D3", "D4"}, windowsAll(), lb},
 				{f.List, []string{"D2"}, windowsQuick(), lbAll[1:]},
+				{f.List, []string{"D1"}, windowsQuick(), cores},
 				{k.List, []string{"D1", "D2"}, windowsQuick(), lb},
 			}
 		}
+		c.Rep.Bounds["gomaxprocs"] = "4 everywhere; 1, 3, 16 over the full alphabet at depth 1"
 		c.Rep.Bounds["datasets"] = "D1 regular, D2 irregular/gap/stale/late, D3 NaN/Inf/negative/resets/name-only, D4 empty"
 		for _, p := range plans {
 			for _, q := range p.qs {
